@@ -216,7 +216,7 @@ pub fn probe_cmo(isa: &rhct::IsaStringHandle, h: &rhct::CmoHandle) -> u64 {
     u32::from_le_bytes([b[16], b[17], b[18], b[19]]) as u64
 }
 pub fn probe_iommu(h: rimt::IommuOffset) -> u64 {
-    let b = to_vec(&rimt::IdMapping::new(0, 0, 0, h, false, false, false));
+    let b = to_vec(&rimt::IdMapping::new(0, 0, 1, h, false, false, false));
     u32::from_le_bytes([b[12], b[13], b[14], b[15]]) as u64
 }
 pub fn probe_viot(h: &viot::TranslationHandle) -> u64 {
